@@ -33,14 +33,14 @@ type mwFlow struct {
 }
 
 type mwWorld struct {
-	c      *Ctx
-	root   string
-	https  bool
-	mw     *samlsp.Middleware
-	now    time.Time
-	jar    map[string]string // name -> value (browser)
-	flows  []*mwFlow
-	abs    map[string]jwtToken // raw cookie value -> abstract token
+	c       *Ctx
+	root    string
+	https   bool
+	mw      *samlsp.Middleware
+	now     time.Time
+	jar     map[string]string // name -> value (browser)
+	flows   []*mwFlow
+	abs     map[string]jwtToken // raw cookie value -> abstract token
 	binding string
 }
 
